@@ -365,6 +365,30 @@ pub fn run(ctx: &Ctx) -> (Report, Meta) {
         if !(worst <= km) {
             case["worst_ratio"] = json!(worst);
             case["naccpt"] = json!(sol.naccpt);
+            // Radau's automatic first step is the absolute constant 1e-6 (RADAU5's default), the one quantity in this family
+            // that does not scale with the time axis: on an axis compressed by w it is a first step of 1e-6 w in the units of
+            // the problem. If the exactly scaled default (first_step = 1e-6 / w ... i.e. 1e-6 in problem units) meets the
+            // bound, the violation is the known finding "absolute default first step"; otherwise it is an ordinary one.
+            let mut known_first_step = false;
+            if fast && method == Method::RADAU && scn.first_step.is_none() && 1e-6 * wscale >= 0.01 {
+                let mut twin = scn.clone();
+                twin.first_step = Some(dirn * 1e-6 / wscale);
+                if let Outcome::Ok(ts) = run_solve(&prob, &twin, false, false).out {
+                    if ts.status == Status::Success {
+                        let mut wt: f64 = 0.0;
+                        for (k, &t) in ts.t.iter().enumerate() {
+                            let ex = prob.exact(t).unwrap();
+                            wt = wt.max(err_ratio(&ts.y[k], &ex, &scn.rtol, &scn.atol, amp * ts.naccpt.max(1) as f64));
+                        }
+                        case["worst_ratio_with_scaled_default_first_step"] = json!(wt);
+                        known_first_step = wt <= km;
+                    }
+                }
+            }
+            if known_first_step {
+                rep.violate("C01/error_bound/RADAU/absolute_default_first_step_on_compressed_time_axis", format!("a returned sample has error {:.1} x A x naccpt x (atol + rtol|y|) (allowed {}); with first_step = 1e-6 / {} the same run meets the bound", worst, km, wscale), &case_id, case);
+                return;
+            }
             rep.violate(
                 &format!("C01/error_bound/{}/{}{}_dim{}", m, cls, if fast { "_compressed_time_axis" } else { "" }, if nn == 1 { "1" } else if nn <= 3 { "2-3" } else { "4-8" }),
                 format!("a returned sample has error {:.1} x A x naccpt x (atol + rtol|y|) (A = {:.2}, naccpt = {}), allowed {}", worst, amp, sol.naccpt, km),
